@@ -733,4 +733,55 @@ theorem after_end_every_call_ends (s : DecSt) (h : readToBuffer s = .error .end_
   simp only [runWS, this, and_self]
 
 
+/-! ### the reader goes on after the end was reported -/
+
+/-- a program whose first action is a read of the input (`read_to_buffer()` + `m_p[0]`) -/
+def StartsWithRead : Prog α → Prop
+  | .next _ => True
+  | .peek _ => True
+  | _ => False
+
+theorem startsWithRead_bind {p : Prog α} (f : α → Prog β) (h : StartsWithRead p) : StartsWithRead (p >>= f) := by
+  show StartsWithRead (Prog.bind p f)
+  cases p with
+  | pure a => cases h
+  | throw e => cases h
+  | next k => trivial
+  | peek k => trivial
+
+theorem ends_of_startsWithRead {p : Prog α} (hp : StartsWithRead p) (s : DecSt) (h : readToBuffer s = .error .end_) :
+    (runWS p (afterRefill s)).1 = .error .end_ := by
+  cases p with
+  | pure a => cases hp
+  | throw e => cases hp
+  | next k => exact (after_end_every_call_ends s h k).1
+  | peek k => exact (after_end_every_call_ends s h k).2
+
+open CdnsVerif.Model.File CdnsVerif.Model.Schema CdnsVerif.Model.Structs in
+/-- **`read_block()` called again after the end of the input was reported reports it again.**  Whatever the reader state – an
+    indefinite block array, or a definite one of which blocks are still outstanding – the call neither hands out a block nor
+    claims the regular end of the file (`eof`), and (the reader state being advanced only after a successful read) this
+    holds for every further call as well. -/
+theorem read_block_again_ends (fuel : Nat) (st : RdSt) (s : DecSt) (h : readToBuffer s = .error .end_)
+    (hmore : st.indef = true ∨ st.read ≠ st.count) :
+    (runWS (readBlock (fuel + 1) st) (afterRefill s)).1 = .error .end_ := by
+  apply ends_of_startsWithRead _ s h
+  unfold readBlock
+  by_cases hi : st.indef = true
+  · simp only [hi, if_true]
+    exact startsWithRead_bind _ trivial
+  · have hne : st.read ≠ st.count := by
+      rcases hmore with h1 | h1
+      · exact absurd h1 hi
+      · exact h1
+    simp only [hi, Bool.false_eq_true, if_false, hne]
+    apply startsWithRead_bind
+    show StartsWithRead (readVal (fuel + 1) block)
+    unfold block readVal
+    apply startsWithRead_bind
+    show StartsWithRead (readStart tMap)
+    unfold readStart
+    exact startsWithRead_bind _ trivial
+
+
 end CdnsVerif.Props.C05
